@@ -4,7 +4,8 @@
 //! `v_dispatch` the four verdicts through the real dispatcher on any supported pair (oracle-only).
 use crate::util::*;
 use super::c03::{self, Sh};
-use crate::p3::query::{self, ClosestPoints};
+use crate::p3::query::{self, ClosestPoints, PointQuery};
+use d3::{Isometry, Real, Vector};
 
 fn last_float(s: &str) -> f64 { f64::from_bits(u64::from_str_radix(s.split_whitespace().last().unwrap(), 16).unwrap()) }
 
@@ -35,9 +36,91 @@ pub fn exec(func: &str, a: &mut Args) -> String {
             let cd = c.map(|c| c.dist).unwrap_or(f64::NAN);
             format!("{} {} {} {} {} {}", b(it), b(d == 0.0), b(cp == ClosestPoints::Intersecting), b(cn), ff(d), ff(cd))
         }
+        // ---- closed-form SAT for two cuboids (bit-exact against the model): he1 he2 pos12
+        "sat_normal" | "sat_edge" | "it_cc" => {
+            use crate::p3::shape::Cuboid;
+            let he1 = d3::v(a); let he2 = d3::v(a); let m = d3::iso(a);
+            let (c1, c2) = (Cuboid::new(he1), Cuboid::new(he2));
+            match func {
+                "sat_normal" => { let (s, d) = query::sat::cuboid_cuboid_find_local_separating_normal_oneway(&c1, &c2, &m); format!("{} {}", ff(s), d3::fv(&d)) }
+                "sat_edge" => { let (s, d) = query::sat::cuboid_cuboid_find_local_separating_edge_twoway(&c1, &c2, &m); format!("{} {}", ff(s), d3::fv(&d)) }
+                _ => b(query::details::intersection_test_cuboid_cuboid(&m, &c1, &c2)).into(),
+            }
+        }
+        // ---- contact self-consistency through the real dispatcher (any pair, composites included): the contact in the
+        //      world frame followed by `@ m1 m2`, the point-query distance of each witness to its own shape
+        "k_contact" => {
+            let s1 = c03::sh(a); let p1 = d3::iso(a); let s2 = c03::sh(a); let p2 = d3::iso(a); let pred = a.f();
+            let (g1, g2) = (c03::dynsh(&s1), c03::dynsh(&s2));
+            match query::contact(&p1, &*g1, &p2, &*g2, pred) {
+                Err(_) => "unsupported".into(),
+                Ok(None) => "none".into(),
+                Ok(Some(c)) => format!("{} @ {} {}", c03::fcontact(&Some(c)), ff(g1.distance_to_point(&p1, &c.point1, true)), ff(g2.distance_to_point(&p2, &c.point2, true))),
+            }
+        }
+        "k2_contact" => {
+            use crate::p2::query::PointQuery as _;
+            let s1 = c03::two::sh(a); let p1 = d2::iso(a); let s2 = c03::two::sh(a); let p2 = d2::iso(a); let pred = a.f();
+            let (g1, g2) = (c03::two::dynsh(&s1), c03::two::dynsh(&s2));
+            match crate::p2::query::contact(&p1, &*g1, &p2, &*g2, pred) {
+                Err(_) => "unsupported".into(),
+                Ok(None) => "none".into(),
+                Ok(Some(c)) => format!("{} @ {} {}", c03::two::fcontact(&Some(c)), ff(g1.distance_to_point(&p1, &c.point1, true)), ff(g2.distance_to_point(&p2, &c.point2, true))),
+            }
+        }
         _ => "nofn".into(),
     }
 }
+
+/// float SAT over the 15 axes of two boxes: (index of the axis, separation along it), largest first
+fn sat15(he1: &Vector<Real>, p1: &Isometry<Real>, he2: &Vector<Real>, p2: &Isometry<Real>) -> Vec<(usize, f64)> {
+    let a: Vec<Vector<Real>> = (0..3).map(|i| p1.rotation * Vector::ith(i, 1.0)).collect();
+    let bb: Vec<Vector<Real>> = (0..3).map(|i| p2.rotation * Vector::ith(i, 1.0)).collect();
+    let c = p2.translation.vector - p1.translation.vector;
+    let mut axes: Vec<Vector<Real>> = Vec::new();
+    axes.extend(a.iter().cloned()); axes.extend(bb.iter().cloned());
+    for i in 0..3 { for j in 0..3 { axes.push(a[i].cross(&bb[j])); } }
+    let mut out = Vec::new();
+    for (k, l) in axes.iter().enumerate() {
+        let n = l.norm();
+        if n < 1e-6 { continue; }
+        let l = l / n;
+        let ra: f64 = (0..3).map(|i| he1[i] * a[i].dot(&l).abs()).sum();
+        let rb: f64 = (0..3).map(|i| he2[i] * bb[i].dot(&l).abs()).sum();
+        out.push((k, c.dot(&l).abs() - ra - rb));
+    }
+    out
+}
+/// edge-edge near miss: poses of two boxes whose ONLY separating axis is (edge i of box 1) x (edge j of box 2),
+/// with the given signed gap along it (negative = slight penetration: then no axis separates)
+fn gen_edge_edge(r: &mut Rng, lat: bool, i: usize, j: usize, gap: f64) -> Option<(Vector<Real>, Isometry<Real>, Vector<Real>, Isometry<Real>)> {
+    for _ in 0..60 {
+        let e = |r: &mut Rng| if lat { *r.pick(&[0.5, 1.0, 1.5, 2.0]) } else { r.uniform(0.3, 2.5) };
+        let he1 = Vector::new(e(r), e(r), e(r)); let he2 = Vector::new(e(r), e(r), e(r));
+        let t1 = if lat { Vector::new(c03::quarter(r, 40), c03::quarter(r, 40), c03::quarter(r, 40)) } else { d3::gen_v(r, false, 50.0) };
+        let p1 = c03::iso_of(d3::gen_quat(r, lat), t1);
+        let l2 = lat && r.bool(); let q2 = d3::gen_quat(r, l2);
+        let ei = p1.rotation * Vector::ith(i, 1.0);
+        let ej = c03::iso_of(q2, Vector::zeros()).rotation * Vector::ith(j, 1.0);
+        let l = ei.cross(&ej);
+        if l.norm() < 0.3 { continue; }
+        let l = l.normalize() * if r.bool() { 1.0 } else { -1.0 };
+        let rot2 = c03::iso_of(q2, Vector::zeros());
+        let ra: f64 = (0..3).map(|k| he1[k] * (p1.rotation * Vector::ith(k, 1.0)).dot(&l).abs()).sum();
+        let rb: f64 = (0..3).map(|k| he2[k] * (rot2.rotation * Vector::ith(k, 1.0)).dot(&l).abs()).sum();
+        // slide along the two edges (orthogonal to l): the separation along l is unchanged
+        let (s1, s2) = if lat { (c03::quarter(r, 1) * 0.5, c03::quarter(r, 1) * 0.5) } else { (r.uniform(-0.3, 0.3) * he1[i], r.uniform(-0.3, 0.3) * he2[j]) };
+        let c = l * (ra + rb + gap) + ei * s1 + ej * s2;
+        let p2 = c03::iso_of(q2, t1 + c);
+        let sat = sat15(&he1, &p1, &he2, &p2);
+        let target = 6 + 3 * i + j;
+        let ok = sat.iter().all(|(k, v)| if *k == target { (*v - gap).abs() < 1e-9 } else { *v < -0.02 - gap.abs() });
+        if ok && sat.iter().any(|(k, _)| *k == target) { return Some((he1, p1, he2, p2)); }
+    }
+    None
+}
+
+fn swap_pair(r: &mut Rng, a: (Sh, Isometry<Real>), bb: (Sh, Isometry<Real>)) -> ((Sh, Isometry<Real>), (Sh, Isometry<Real>)) { if r.bool() { (a, bb) } else { (bb, a) } }
 
 pub fn gen(r: &mut Rng, thorough: bool) -> Vec<(String, String)> {
     let n = if thorough { 4000 } else { 400 };
@@ -71,6 +154,46 @@ pub fn gen(r: &mut Rng, thorough: bool) -> Vec<(String, String)> {
             let margin = c03::gen_param(r, lat); let pred = c03::gen_param(r, lat);
             v.push(("v_dispatch".into(), format!("{} {} {} {} {} {}", c03::hsh(&s1), d3::hiso(&p1), c03::hsh(&s2), d3::hiso(&p2), hx(margin), hx(pred))));
         }
+        // ---- cuboid/cuboid edge-edge near misses: one case per run of the loop for a rotating choice of the 9 edge pairs;
+        //      gaps 1e-3 .. 0.5 and slight penetrations; referee = exact rational SAT over the 15 axes
+        for _ in 0..2 {
+            let k = (it * 2 + v.len()) % 9; let (i, j) = (k / 3, k % 3);
+            let gap = *r.pick(&[1.0e-3, 1.0e-2, 0.05, 0.1, 0.25, 0.5, -1.0e-3, -1.0e-2, -0.1]);
+            if let Some((he1, p1, he2, p2)) = gen_edge_edge(r, lat, i, j, gap) {
+                let margin = c03::gen_param(r, lat); let pred = c03::gen_param(r, lat);
+                let pos12 = p1.inv_mul(&p2);
+                let cc = format!("{} {} {}", d3::hv(&he1), d3::hv(&he2), d3::hiso(&pos12));
+                for f in ["sat_normal", "sat_edge", "it_cc"] { v.push((f.into(), cc.clone())); }
+                let (a1, a2) = swap_pair(r, (Sh::Cuboid(he1), p1), (Sh::Cuboid(he2), p2));
+                v.push(("v_dispatch".into(), format!("{} {} {} {} {} {}", c03::hsh(&a1.0), d3::hiso(&a1.1), c03::hsh(&a2.0), d3::hiso(&a2.1), hx(margin), hx(pred))));
+            }
+        }
+        // ---- contact self-consistency on any pair, Compounds with rotated / translated parts included, both orders
+        for _ in 0..2 {
+            let comp = c03::gen_compound(r, lat);
+            let other = match r.below(6) { 0 => c03::gen_compound(r, lat), 1 => c03::gen_shape(r, lat, &all), _ => c03::gen_part(r, lat) };
+            let (p1, mut p2, _) = c03::gen_poses(r, lat, &comp, &other);
+            if r.below(4) == 0 { p2.translation.vector = (p1 * c03::interior_point(r, lat, &comp)).coords; }
+            let pred = c03::gen_param(r, lat).max(if lat { 0.5 } else { 0.3 });
+            v.push(("k_contact".into(), format!("{} {} {} {} {}", c03::hsh(&comp), d3::hiso(&p1), c03::hsh(&other), d3::hiso(&p2), hx(pred))));
+            v.push(("k_contact".into(), format!("{} {} {} {} {}", c03::hsh(&other), d3::hiso(&p2), c03::hsh(&comp), d3::hiso(&p1), hx(pred))));
+        }
+        {
+            let (s1, s2) = loop {
+                let s1 = c03::gen_shape(r, lat, &all); let s2 = c03::gen_shape(r, lat, &all);
+                if !matches!((&s1, &s2), (Sh::HalfSpace(_), Sh::HalfSpace(_))) { break (s1, s2); }
+            };
+            let (p1, p2, _) = c03::gen_poses(r, lat, &s1, &s2);
+            let pred = c03::gen_param(r, lat);
+            v.push(("k_contact".into(), format!("{} {} {} {} {}", c03::hsh(&s1), d3::hiso(&p1), c03::hsh(&s2), d3::hiso(&p2), hx(pred))));
+        }
+        {   // generic cuboid pairs (face / vertex configurations, axis-aligned lattice poses with zero components)
+            let he1 = d3::gen_he(r, lat); let he2 = d3::gen_he(r, lat);
+            let (_, _, pos12) = c03::gen_poses(r, lat, &Sh::Cuboid(he1), &Sh::Cuboid(he2));
+            let cc = format!("{} {} {}", d3::hv(&he1), d3::hv(&he2), d3::hiso(&pos12));
+            for f in ["sat_normal", "sat_edge", "it_cc"] { v.push((f.into(), cc.clone())); }
+        }
+        c03::two::gen_k(r, lat, &mut v);
     }
     v
 }
